@@ -262,8 +262,36 @@ def perturb(r, which, k, n, max_seg, secret, size, max_segments=None):
 # ---------------------------------------------------------------------------------------------
 # (a) key derivation
 # ---------------------------------------------------------------------------------------------
+# file objects holding written but UNFLUSHED data (what a web/SFTP frontend or `tahoe put` of a
+# just-written temporary file hands to FileHandle): same bytes, so same cap
+BUFFERED = ("unflushed", "tempfile", "spooled-mem", "spooled-rolled")
+
+
+def buffered_file(kind, data, path=None):
+    import tempfile
+    from core import env
+    d = os.path.dirname(path) if path else env.subdir("c05buf")
+    if kind == "unflushed":
+        f = tempfile.NamedTemporaryFile(mode="w+b", dir=d)          # open(..., "w+b"), removed on close
+    elif kind == "tempfile":
+        f = tempfile.TemporaryFile(dir=d)
+    elif kind == "spooled-mem":
+        f = tempfile.SpooledTemporaryFile(max_size=len(data) + 100, dir=d)
+    elif kind == "spooled-rolled":
+        f = tempfile.SpooledTemporaryFile(max_size=max(1, len(data) // 2), dir=d)
+    else:
+        raise ValueError(kind)
+    f.write(data)      # no flush, no seek: the position is at the end, part of the data is still in the buffer
+    return f
+
+
 def make_uploadable(kind, data, secret, sched, path=None, rng=None):
     from allmydata.immutable import upload
+    if kind in BUFFERED:
+        f = buffered_file(kind, data, path)
+        u = upload.FileHandle(f, secret)
+        u._verif_file = f          # closed (and removed) when the uploadable goes away
+        return u
     if kind == "data":
         return upload.Data(data, secret)
     if kind == "filehandle":
@@ -307,7 +335,8 @@ def key_case(ctx, i, scratch):
     want = o_key(k, n, segsize, secret, data)
     path = os.path.join(scratch, "key-%d.bin" % i)
     got = {}
-    for kind in ("data", "filehandle", "filename", "shortread"):
+    buffered = BUFFERED if size <= 70000 else (BUFFERED[i % len(BUFFERED)],)
+    for kind in ("data", "filehandle", "filename", "shortread") + tuple(buffered):
         params, key, key2, si = uploadable_key(kind, data, secret, sched, k, n, max_seg, path=path, want_si=True)
         got[kind] = (params, key, si)
         if key2 != key:
@@ -317,10 +346,13 @@ def key_case(ctx, i, scratch):
         os.unlink(path)
     ctx.case(("key", k, n, max_seg, secret, size, tuple(sched), data[:64]), kind="key:" + size_class(size))
     base = got["data"]
-    for kind in ("filehandle", "filename"):
-        if got[kind][1] != base[1]:
-            ctx.oracle_fail("convergent-key-depends-on-source", "upload.%s and upload.Data give different convergent keys for the same plaintext and settings" % kind,
-                            case=case, expected=base[1].hex(), observed=got[kind][1].hex())
+    for kind in ("filehandle", "filename") + tuple(buffered):
+        if got[kind][1] != base[1] or got[kind][0] != base[0]:
+            ctx.oracle_fail("convergent-key-depends-on-source",
+                            "%s and upload.Data give different convergent keys / encoding parameters for the same %d-byte plaintext and settings: %r vs %r" % (
+                                "upload.%s" % kind if kind in ("filehandle", "filename") else "upload.FileHandle over a written but unflushed file object (%s)" % kind,
+                                size, got[kind][0], base[0]),
+                            case=dict(case, source=kind), expected=base[1].hex(), observed=got[kind][1].hex())
     if got["shortread"][1] != base[1]:
         ctx.oracle_fail("convergent-key-depends-on-chunking",
                         "a file object returning short reads %r... gives a different convergent key than the same bytes read in 64 KiB blocks" % (sched[:8],),
@@ -504,17 +536,19 @@ def grid_case(ctx, g, i, scratch):
             "sched": sched[:40], "data_sha256": hashlib.sha256(data).hexdigest()}
     g.set_encoding(k=k, n=n, happy=HAPPY, max_segment_size=max_seg)
     caps = {}
-    for kind in ("data", "filehandle", "filename", "chunky", "data-again"):
-        caps[kind] = grid_upload(g, kind.split("-")[0], data, secret, sched, scratch, ctx.rng("grid-pieces", i), "%d" % i)
+    bkind = BUFFERED[i % len(BUFFERED)]
+    for kind in ("data", "filehandle", "filename", "chunky", "data-again", bkind):
+        caps[kind] = grid_upload(g, kind if kind in BUFFERED else kind.split("-")[0], data, secret, sched, scratch, ctx.rng("grid-pieces", i), "%d" % i)
     ctx.case(("grid", k, n, max_seg, secret, size, tuple(sched), data[:64]), kind="grid:" + size_class(size))
     base = caps["data"]
     if caps["data-again"] != base:
         ctx.oracle_fail("convergent-reupload-different-cap", "uploading the same bytes twice with the same convergence secret and parameters gives two caps",
                         case=case, expected=base.decode(), observed=caps["data-again"].decode())
-    for kind in ("filehandle", "filename"):
+    for kind in ("filehandle", "filename", bkind):
         if caps[kind] != base:
-            ctx.oracle_fail("convergent-cap-depends-on-source", "upload from upload.%s gives a different cap than from upload.Data" % kind,
-                            case=case, expected=base.decode(), observed=caps[kind].decode())
+            ctx.oracle_fail("convergent-cap-depends-on-source", "upload of %d bytes from %s gives a different cap than from upload.Data" % (
+                size, "upload.%s" % kind if kind != bkind else "upload.FileHandle over a written but unflushed file object (%s)" % kind),
+                            case=dict(case, source=kind), expected=base.decode(), observed=caps[kind].decode())
     if caps["chunky"] != base:
         ctx.oracle_fail("convergent-cap-depends-on-chunking", "upload from a short-reading, multi-piece uploadable gives a different cap than from upload.Data",
                         case=case, expected=base.decode(), observed=caps["chunky"].decode())
@@ -593,7 +627,8 @@ def literal_inputs(ctx, size, j):
     if j == 0 and size:
         data = bytes([0xff]) * size            # all-ones: every quintet 31
     secret = gen_secret(r)
-    kind = ("data", "filehandle", "chunky")[j % 3]
+    kinds = ("data", "filehandle", "chunky") + BUFFERED
+    kind = kinds[(size + j) % len(kinds)] if j else kinds[size % len(kinds)]
     sched = gen_sched(r, size)
     return r, data, secret, kind, sched
 
